@@ -21,7 +21,8 @@ SplitApis == {"split_ref", "split_mut"}
 FlatApis == {"flatten_ref", "flatten_mut", "unflatten_ref", "unflatten_mut"}
 ChunkApis == {"chunks_from_slice", "chunks_from_slice_mut"}
 CastApis == {"slice_from_chunks", "slice_from_chunks_mut", "from_chunks", "from_chunks_mut", "into_chunks", "into_chunks_mut"}
-AllApis == WholeApis \cup ElemApis \cup SliceApis \cup SplitApis \cup FlatApis \cup ChunkApis \cup CastApis
+IndexApis == {"index", "index_mut", "get"}
+AllApis == WholeApis \cup ElemApis \cup SliceApis \cup SplitApis \cup FlatApis \cup ChunkApis \cup CastApis \cup IndexApis
 
 Init ==
     /\ GAInit
@@ -29,11 +30,12 @@ Init ==
     /\ n \in Lens
     /\ IF api \in SliceApis THEN l \in {0, n - 1, n, n + 1, 2 * n, n + 7} \cap Nat
        ELSE IF api \in ChunkApis THEN l \in 0..(4 * n + 3)
+       ELSE IF api \in IndexApis THEN l \in 0..(n + 1)
        ELSE l = n
     /\ IF api \in SplitApis THEN k \in 0..n ELSE k = 0
     /\ IF api \in FlatApis \cup CastApis THEN m \in 0..MaxM ELSE m = 0
     /\ (api \in {"unflatten_ref", "unflatten_mut"} => n >= 1)
-    /\ mem = [cells |-> [i \in 1..(IF api \in FlatApis \cup CastApis THEN n * m ELSE l) |-> i], parts |-> <<>>, esize |-> 1]
+    /\ mem = [cells |-> [i \in 1..(IF api \in FlatApis \cup CastApis THEN n * m ELSE IF api \in IndexApis THEN n ELSE l) |-> i], parts |-> <<>>, esize |-> 1]
 
 E == ViewExp(api, n, l, k, m)
 SrcLen == Len(mem.cells)
@@ -54,7 +56,7 @@ InSource == E.outcome = "ok" => \A i \in DOMAIN E.parts : E.parts[i].off >= 0 /\
 Cells(p) == (p.off + 1)..(p.off + p.len)
 Disjoint == E.outcome = "ok" => \A i, j \in DOMAIN E.parts : i # j => Cells(E.parts[i]) \cap Cells(E.parts[j]) = {}
 \* every API except the failing reinterpretations covers its whole source
-Covers == E.outcome = "ok" => UNION {Cells(E.parts[i]) : i \in DOMAIN E.parts} = 1..SrcLen
+Covers == (E.outcome = "ok" /\ api \notin IndexApis) => UNION {Cells(E.parts[i]) : i \in DOMAIN E.parts} = 1..SrcLen
 ExactLength == api \in SliceApis => (E.outcome = "ok" <=> l = n)
 Partition == api \in ChunkApis => ChunksPartition(n, l)
 \* a write through one window is seen through the source and through every window
